@@ -81,4 +81,14 @@ func init() {
 		NotDecided: "that natsort.Less is a strict total order comparing digit runs numerically — an order-axiom statement over all strings that no structural rule establishes; the property's first sentence is therefore NOT decided.",
 		Rules:      []RuleUse{{Rule: "ORD-SORT"}, {Rule: "DET-1"}},
 	})
+	addProperty(&Property{
+		ID:         "C17",
+		Title:      "Metadata IDs are unique and references share node identity",
+		Decided:    "all 29 node types print numbered nodes by ID and inline nodes in place (MD-IDENT); every node the parser allocates is either inline (ID -1) or gets its definition's ID (MD-INLINE); fill translators fill the scaffold object that references resolve to and allocate only for inline nodes (MD-SCAF, PAIR); !N references resolve through one checked lookup (LK-2) and duplicate !N definitions are rejected (DUP); named metadata is merged by append in textual order (MD-MERGE); the printer assigns only unused IDs, to unassigned nodes, before writing (MD-ASSIGN, RACE-2); per debug-info field: grammar key ↔ printed field ↔ translator agree (MD-KEY) and the dispatch/coverage rules hold on the metadata translators and printers (EXH, ACC, FLOW, FLD-W, FLD-P restricted to metadata).",
+		NotDecided: "the arithmetic of the ID counter (smallest unused numbers as such); identity through paths the rules do not model (nodes copied by value).",
+		Rules: []RuleUse{{Rule: "MD-IDENT"}, {Rule: "MD-INLINE"}, {Rule: "MD-SCAF"}, {Rule: "MD-KEY"}, {Rule: "MD-MERGE"}, {Rule: "MD-ASSIGN"},
+			{Rule: "PAIR", Filter: tag("md"), Floor: 25}, {Rule: "LK-2", Filter: tag("md"), Floor: 1}, {Rule: "DUP", Filter: tag("md"), Floor: 1},
+			{Rule: "EXH", Filter: tag("md"), Floor: 200}, {Rule: "ACC", Filter: tag("md"), Floor: 120}, {Rule: "FLOW", Filter: tag("md"), Floor: 150},
+			{Rule: "FLD-W", Filter: tag("md"), Floor: 200}, {Rule: "FLD-P", Filter: tag("md"), Floor: 200}},
+	})
 }
